@@ -37,6 +37,16 @@ def Node.isFile : Node → Bool
   | .file _ => true
   | _ => false
 
+/-- the bytes of a regular file -/
+def Node.fileData : Node → Option Bytes
+  | .file d => some d
+  | _ => none
+
+/-- member names of a directory, in enumeration order -/
+def Node.names : Node → Option (List Str)
+  | .dir kids => some (kids.map (·.1))
+  | _ => none
+
 /-- first member with the given name -/
 def kidLookup : List (Str × Node) → Str → Option Node
   | [], _ => none
@@ -209,7 +219,13 @@ def serve (c : SiteCfg) (st : StatFn) (sel : Str) : Served :=
 
 /-- the entry `handler.getentry()` gives for an existing local object (`populatefromfs`) -/
 def entryAt (c : SiteCfg) (st : StatFn) (sel : Str) : Option Entry :=
-  (popAt c st sel).map fun pi => populateWith c.eaexts c.defaultMime pi { selector := sel }
+  (popAt c st sel).map fun pi =>
+    -- a `*.gophermap` file claimed by the gophermap handler is a menu, not a document of its MIME type
+    let e0 : Entry :=
+      if dispatch c st sel = .gophermapFile then
+        { selector := sel, type := some (lit "1"), mimetype := some (lit "application/gopher-menu") }
+      else { selector := sel }
+    populateWith c.eaexts c.defaultMime pi e0
 
 /-- one directory member as `Model/Umn` wants it -/
 def childOf (c : SiteCfg) (st : StatFn) (base : Str) (name : Str) (k : Node) : Child :=
